@@ -24,7 +24,11 @@ AUTHORS = {6: AUTHOR_R6,
                'state left behind after something went slightly wrong and was handled (a rejected command, a warning, an unresolvable '
                'object, a line that is not a message, a duplicate open/close, a caught exception, an interrupt), clean-up paths, or two '
                'features that each work alone; written as a plausible well-meaning commit (saw the property text, a scratch worktree '
-               'and one-line descriptions of earlier rounds; no /verif)')}
+               'and one-line descriptions of earlier rounds; no /verif)'),
+           9: ('sub-agent asked for one change that needs BOTH a history of at least three steps (two connections, several commands, '
+               'open/close/re-open) AND something untimely inside it: an interrupt while reading or writing, input ending or a '
+               'connection closed at an odd point, a partial read, a slow peer, a thread switch, a caught exception, exactly equal '
+               'timestamps (saw the property text, a scratch worktree and one-line descriptions of earlier rounds; no /verif)')}
 
 
 def main():
